@@ -172,3 +172,30 @@ func ZZ_C19_Translate() {
 	bx := vector3.New(pos("b.x"), pos("b.y"), pos("b.z"))
 	iff(sdf.Translate(sdf.Box(c, bx), t)(p) < 0, sdf.Box(vector3.New(c.X()+t.X(), c.Y()+t.Y(), c.Z()+t.Z()), bx)(p) < 0, "translate(box): same membership as the moved box")
 }
+
+// rounded cone (convex hull of two spheres) over concrete axes with symbolic radii and sample point:
+// swapping the end points (and radii) describes the same shape, and the field never exceeds the distance to
+// any of the interpolated spheres the hull is made of.
+func ZZ_C19_RoundedCone() {
+	segs := [][2]vector3.Float64{
+		{vector3.New(0., 0., 0.), vector3.New(2., 0., 0.)},
+		{vector3.New(0., -1., 1.), vector3.New(0., 3., 1.)},
+	}
+	k := zz.Choose("segment", len(segs))
+	a, b, p := segs[k][0], segs[k][1], sv3("p")
+	r1, r2 := pos("r1"), pos("r2")
+	l2 := d2(a, b)
+	zz.Assume((r1-r2)*(r1-r2) < l2*0.81) // neither sphere contains the other (with margin)
+	t := zz.Float64("t")
+	zz.Assume(t >= 0)
+	zz.Assume(t <= 1)
+	zz.Reach("input")
+	f := sdf.RoundedCone(a, b, r1, r2)(p)
+	g := sdf.RoundedCone(b, a, r2, r1)(p)
+	zz.AssertNear(f, g, "rounded cone: swapping the end points describes the same shape")
+	c := vector3.New(a.X()+t*(b.X()-a.X()), a.Y()+t*(b.Y()-a.Y()), a.Z()+t*(b.Z()-a.Z()))
+	rt := r1 + t*(r2-r1)
+	// f <= |p - c(t)| - r(t)   <=>   f + r(t) <= |p - c(t)|   (sqrt-free: f + r(t) <= 0 or (f + r(t))^2 <= |p-c|^2)
+	u := f + rt
+	zz.Assert(zz.Or(u <= 1e-9, u*u <= d2(p, c)*(1+1e-6)+1e-9), "rounded cone: never farther than any interpolated sphere")
+}
